@@ -134,10 +134,31 @@ def check_framing(model, col, rule):
     col.check(good, rule, f"{WA}::Table.WriteTo", "reftype, limits(0x00, min)", f"table is written as {[(i[0], i[1]) for i in o]}", WA, f)
     c, f, t = term_of("Memory")
     o = t.out(f.args.args[1].arg)
-    good = len(o) == 1 and o[0][0] == "if" and "max" in o[0][1]
-    if good:
-        a, b = o[0][2], o[0][3]
-        good = (len(a) == 3 and a[0][2] == 1 and "min" in a[1][1] and "max" in a[2][1] and len(b) == 2 and b[0][2] == 0 and "min" in b[1][1])
+    # limits: (0x01 min max | 0x00 min): flatten the term into the two sequences it can emit
+    def flat(items, take_if):
+        out_ = []
+        for it in items:
+            if it[0] == "if":
+                out_ += flat(it[2] if take_if else it[3], take_if)
+            else:
+                out_.append(it)
+        return out_
+
+    def limit_seq(take_if):
+        seq = []
+        for it in flat(o, take_if):
+            if it[0] == "byte":
+                c = it[2]
+                if c is None and " if " in it[1]:
+                    # 0x01 if hasMaximum else 0x00
+                    parts = it[1].split(" if ")
+                    c = int(parts[0], 0) if take_if else int(it[1].split(" else ")[1], 0)
+                seq.append(("byte", c))
+            elif it[0] == "leb":
+                seq.append(("leb", "max" if "max" in it[1] else "min" if "min" in it[1] else it[1]))
+        return seq
+
+    good = bool(o) and limit_seq(True) == [("byte", 1), ("leb", "min"), ("leb", "max")] and limit_seq(False) == [("byte", 0), ("leb", "min")]
     col.check(good, rule, f"{WA}::Memory.WriteTo", "limits: 0x01 min max | 0x00 min", f"memory limits are written as {o}", WA, f)
     c, f, t = term_of("Code", "Encode")
     bufs = [b for b in t.local_buffers]
